@@ -23,6 +23,8 @@ CONSTANTS Fams,                 \* family names explored by this configuration
                                 \* another one shares its Lanelet objects, and moving the derived network moves the lanelets of the
                                 \* original while the original's index stays (seeded change C06-5)
           ForkAll,              \* TRUE: a second network may be derived from every network ; FALSE: only from from_list(0) ones
+          DEV_DrawMovesVertices, \* drawing the network writes into the boundary arrays of the lanelets (a view instead of a copy):
+                                \* the first vertex of every right boundary moves towards the second one, polygon and index stay (seed C06-6)
           DEV_DiscHalfRadius    \* lookups by shape use the exported disc of radius r/2 (Circle.shapely_object = buffer(radius / 2))
 
 VARIABLES fam,    \* the family under construction
@@ -134,6 +136,12 @@ RemoveNoRtree(i) == /\ MoreMut /\ i \in DOMAIN polys /\ Cardinality(DOMAIN polys
                     /\ buf' = IF DEV_DeferredRemoveKeepsPolygon THEN buf ELSE Restrict(buf, DOMAIN buf \ {i})
                     /\ index' = index /\ dirty' = TRUE
                     /\ LogA("remove_nortree", <<i>>)
+(* drawing (and rendering) the network n times: read-only, nothing moves, nothing is rebuilt *)
+Nudge(ring)    == [ring EXCEPT ![1] = <<@[1] + Sgn(ring[2][1] - @[1]), @[2] + Sgn(ring[2][2] - @[2])>>]
+Draw(n)        == /\ More
+                  /\ polys' = IF DEV_DrawMovesVertices THEN [i \in DOMAIN polys |-> Nudge(polys[i])] ELSE polys
+                  /\ UNCHANGED <<buf, index, dirty>>
+                  /\ LogA("draw", <<n>>)
 (* a second network B derived from the current one (A): A is kept, the following steps act on B *)
 Fork(h)        == /\ More /\ forked = "" /\ ~dirty /\ (ForkAll \/ hist[1] = Rt("from_list", <<0>>))
                   /\ forked' = h /\ apolys' = polys /\ aindex' = index /\ asnap' = polys
@@ -152,6 +160,7 @@ Next == \/ \E c \in {0, 1} : FromList(c)
         \/ \E r \in {0, 1} : AddExtra(r)
         \/ AddExtraNet
         \/ \E i \in 11..15 : RemoveNoRtree(i)
+        \/ \E n \in {1, 2} : Draw(n)
         \/ \E c \in {0, 1} : ForkList(c)
         \/ ForkNet \/ ForkCopy \/ \E c \in {1, 3} : ForkCut(c)
 Spec == Init /\ [][Next]_vars
@@ -212,6 +221,13 @@ PtClasses == <<"far", "outside", "interior", "interior-overlap", "corner", "on-s
 PointGroups(N) == LET G == [c \in Range(PtClasses) |-> {p \in Grid \cup Far : PtClass(N, p) = c}] IN
                   SelectSeq([i \in DOMAIN PtClasses |-> [cls |-> PtClasses[i], pts |-> SX!SetToSeq(G[PtClasses[i]])]],
                             LAMBDA g : g.pts # <<>>)
+
+(* probe points around the start / end corners of both boundaries of every lanelet, in units of 1/16 (8 x doubled):   *)
+(* offsets 1/16, 3/16 along and across the boundary, on it and on both sides (for the lookups after a draw step)    *)
+FineScale == 8
+Corners(ring) == {ring[1], ring[Len(ring) \div 2], ring[Len(ring) \div 2 + 1], ring[Len(ring)]}
+WedgePts(N) == UNION {{<<FineScale * c[1] + dx, FineScale * c[2] + dy>> : dx \in {-3, -1, 0, 1, 3}, dy \in {-3, -1, 0, 1, 3}} :
+                        c \in UNION {Corners(N[k].v) : k \in DOMAIN N}}
 
 (* query shapes: candidates of each kind, classified against the family, PerClass kept per (kind, class) *)
 Pick(q, n) == LET m == Min(n, Len(q)) IN [i \in 1..m |-> q[1 + ((i - 1) * Len(q)) \div m]]
@@ -329,7 +345,7 @@ ObstacleTable ==
     Ob(39, "setbased", 0, <<DiscS(<<1, 5>>, 2), DiscS(<<3, 5>>, 2), DiscS(<<7, 1>>, 4)>>)>>
 
 (* one FAMILY record per family at its initial state, one ROUTE record per completed route sequence, the SHAPE table once *)
-EmitFamily == PrintT(<<"CASE", ToJson([kind |-> "family", fam |-> fam, lanelets |-> Family(fam), net |-> FamNet(fam), extra |-> Extra,
+EmitFamily == PrintT(<<"CASE", ToJson([kind |-> "family", fam |-> fam, lanelets |-> Family(fam), net |-> FamNet(fam), extra |-> Extra, wedge |-> SX!SetToSeq(WedgePts(FamNet(fam))), fine |-> FineScale,
                                         points |-> PointGroups(FamNet(fam)), shapes |-> ShapeQueries(FamNet(fam)),
                                         obstacles |-> ObstacleTable, cuts |-> Cuts])>>)
 EmitShapes == \A i \in DOMAIN ShapeTable :       \* (mentions a variable: a constant-level definition would be evaluated, and printed, at every start-up)
